@@ -325,14 +325,18 @@ pub(super) fn find_date_time(
                 let valid_transition_times = &additional_transition_times[first_valid..];
                 let valid_transitions = &additional_transitions[first_valid..];
 
-                let valid_iter = valid_transition_times.iter().copied().zip(valid_transitions.iter().copied());
+                let mut valid_iter = valid_transition_times.iter().copied().zip(valid_transitions.iter().copied()).peekable();
 
-                for (transition_unix_time, &(&local_time_type_before, &local_time_type_after, unix_time_before, unix_time_after)) in valid_iter {
+                while let Some((transition_unix_time, &(&local_time_type_before, &local_time_type_after, unix_time_before, unix_time_after))) = valid_iter.next() {
+                    // Two transitions at the same instant delimit a period of zero length and cancel each other, so they don't create a gap
+                    let is_cancelled = previous_transition_unix_time == transition_unix_time
+                        || matches!(valid_iter.peek(), Some(&(next_transition_unix_time, _)) if next_transition_unix_time == transition_unix_time);
+
                     if previous_transition_unix_time <= unix_time_before && unix_time_before < transition_unix_time {
                         found_date_time_list.push(FoundDateTimeKind::Normal(new_datetime(local_time_type_before, unix_time_before)));
                     } else {
                         // Check for a forward transition
-                        if unix_time_before >= transition_unix_time && unix_time_after < transition_unix_time {
+                        if !is_cancelled && unix_time_before >= transition_unix_time && unix_time_after < transition_unix_time {
                             found_date_time_list.push(FoundDateTimeKind::Skipped {
                                 before_transition: DateTime::from_timespec_and_local(transition_unix_time, nanoseconds, local_time_type_before)?,
                                 after_transition: DateTime::from_timespec_and_local(transition_unix_time, nanoseconds, local_time_type_after)?,
